@@ -182,7 +182,10 @@ def obligations(tier, seed):
     for mac in ('FF-FF-FF-FF-FF-FF', '00-00-00-00-00-01', '0A-0B-0C-0D-0E-0F'):
         for k in ('es-import', 'router-mac'):
             out.append(ob('C17/ext/%s/mac=%s' % (k, mac), 'ob_ext', {'kind': k, 'mac': mac}, covers=['decoded', 'accepted']))
-    for k, more in (('rt0', ['color']), ('color', ['rt0']), ('ro1', ['esi-label'])):
+    for k, more in (('rt0', ['color']), ('color', ['rt0']), ('ro1', ['esi-label']),
+                    # two of the same kind with different field values in one attribute
+                    ('traffic-action', ['traffic-action']), ('rt0', ['rt0']), ('traffic-marking', ['traffic-marking']),
+                    ('mac-mobility', ['mac-mobility'])):
         out.append(ob('C17/ext/%s+%s' % (k, more[0]), 'ob_ext', {'kind': k, 'more': more}, covers=['decoded', 'accepted'], cap=250))
     out.append(ob('C17/community/n=1', 'ob_comm', {'n': 1}, covers=['decoded', 'accepted'], cap=250))
     out.append(ob('C17/community/n=2', 'ob_comm', {'n': 2}, covers=['decoded', 'accepted'], cap=250))
